@@ -645,26 +645,20 @@ pub fn rekey(
     msk: &mut MasterSecretKey,
     rights: HashSet<Right>,
 ) -> Result<(), Error> {
+    // Check all rights first so that the MSK is left untouched upon failure.
+    if rights.iter().any(|r| !msk.secrets.contains_key(r)) {
+        return Err(Error::OperationNotPermitted(
+            "cannot re-key a right not belonging to the MSK".to_string(),
+        ));
+    }
+
     for r in rights {
-        if msk.secrets.contains_key(&r) {
+        if let Some((is_activated, key)) = msk.secrets.get_latest(&r) {
             // The new secret inherits the activation status of the right: a
             // deactivated right must not be published again by a re-key.
-            let (is_activated, is_hybridized) = msk
-                .secrets
-                .get_latest(&r)
-                .map(|(is_activated, k)| (*is_activated, k.is_hybridized()))
-                .ok_or_else(|| {
-                    Error::OperationNotPermitted(format!("no current key for coordinate {r:#?}"))
-                })?;
-
-            msk.secrets.insert(
-                r,
-                (is_activated, RightSecretKey::random(rng, is_hybridized)?),
-            );
-        } else {
-            return Err(Error::OperationNotPermitted(
-                "cannot re-key a right not belonging to the MSK".to_string(),
-            ));
+            let is_activated = *is_activated;
+            let secret = RightSecretKey::random(rng, key.is_hybridized())?;
+            msk.secrets.insert(r, (is_activated, secret));
         }
     }
     Ok(())
